@@ -17,6 +17,14 @@ Line-protocol driver for the C06 model (fan-out queue with consumer groups).
       meta write is delayed while Sync+GC are called = create; sync; gc — an Ack whose meta write is
       delayed while Consume is called = ack; consume)
 
+  ackrewind <g> <n> <m> | rewindack <g> <m> <n>   (round 12, SetConsumedSeq against Ack on one group, the
+      thread `wSet` of Model/FanOutMicro.lean: the one that holds the lock first is first — ack; setc / setc; ack)
+
+  rreset <g> <idx> | rstart <g> | rack <g> <idx> | rignore <g> <idx> | rconsume <g> | rhandshake <g> <rAck>  (round 12: the methods of
+      replica/replicator.go over the group — ResetReplicaIndex, the rewind of NewLocalReplicator, SetAckIndex,
+      IgnoreMessage, Consume — as the operations Model/C06Glue.lean says they issue; the first four answer
+      `ok ri=<ReplicaIndex> ai=<AckIndex> ap=<AppendIndex> | …`)
+
   pending <g> | isempty <g>      (observations: ConsumerGroup.Pending / IsEmpty, Model/FanOutRepl.lean)
   expire           (queue part of replica/partition.go IsExpire: Sync; GC; every live group that IsEmpty is
       stopped: answers `ok stopped=<ids> | …`)
@@ -52,6 +60,7 @@ import LinVerif.Model.FanOutFault
 import LinVerif.Model.FanOutRepl
 import LinVerif.Model.C06Msync
 import LinVerif.Model.C06Woken
+import LinVerif.Model.C06Glue
 import LinVerif.Generated.C06
 
 namespace LinVerif.Driver.C06
@@ -150,6 +159,16 @@ def preply (p : PState × PRes) : PState × String := (p.1, showPRes p.2 ++ " | 
 /-- the msync shape of the current source (regenerated access tables) -/
 def msyncShape : Msync.Shape := Msync.shapeOf Generated.C06.ackAccess Generated.C06.queueSetAckAccess
 
+/-- round 12: a method of the replicator (replica/replicator.go, Model/C06Glue.lean) = the operations it
+issues on the group; answers ReplicaIndex / AckIndex / AppendIndex afterwards -/
+def replReply (v : Variant) (ps : PState) (g : Nat) (ops : List Op) : PState × String :=
+  let s' := run v ps.s ops
+  match LinVerif.Map.lookup s'.live g with
+  | some grp =>
+    ({ ps with s := s' },
+     s!"ok ri={Glue.replicaIndex grp} ai={Glue.ackIndex grp} ap={Glue.appendIndex s'.q} | " ++ showState s')
+  | none => (ps, "no-group")
+
 def pstepLine (v : Variant) (ps : PState) (ws : List String) : PState × String :=
   match ws with
   | ["cbegin", g] =>
@@ -187,6 +206,48 @@ def pstepLine (v : Variant) (ps : PState) (ws : List String) : PState × String 
       let r := step v s1 (.consume g)
       ({ ps with s := r.1 }, showRes r.2 ++ " | " ++ showState r.1)
     | _, _ => (ps, "bad-op")
+  | ["rreset", g, idx] =>
+    match g.toNat?, idx.toInt? with
+    | some g, some idx => replReply v ps g [Glue.resetReplicaIndex g idx]
+    | _, _ => (ps, "bad-op")
+  | ["rstart", g] =>
+    match g.toNat? with
+    | some g => replReply v ps g (Glue.localStart ps.s g)
+    | none => (ps, "bad-op")
+  | ["rack", g, idx] =>
+    match g.toNat?, idx.toInt? with
+    | some g, some idx => replReply v ps g [Glue.setAckIndex g idx]
+    | _, _ => (ps, "bad-op")
+  | ["rignore", g, idx] =>
+    match g.toNat?, idx.toInt? with
+    | some g, some idx => replReply v ps g (Glue.ignoreMessage ps.s g idx)
+    | _, _ => (ps, "bad-op")
+  | ["rhandshake", g, r] =>
+    match g.toNat?, r.toInt? with
+    | some g, some r => replReply v ps g (Glue.handshakeOps ps.s g r)
+    | _, _ => (ps, "bad-op")
+  | ["rconsume", g] =>
+    match g.toNat? with
+    | some g =>
+      let r := step v ps.s (.consume g)
+      ({ ps with s := r.1 }, showRes r.2 ++ " | " ++ showState r.1)
+    | none => (ps, "bad-op")
+  | ["ackrewind", g, n, m] =>
+    -- round 12: Ack ‖ SetConsumedSeq on one group, Ack holds the read lock first: ack, then the rewind
+    match g.toNat?, n.toInt?, m.toInt? with
+    | some g, some n, some m =>
+      let s1 := (step v ps.s (.ack g n)).1
+      let r := step v s1 (.setConsumed g m)
+      ({ ps with s := r.1 }, showRes r.2 ++ " | " ++ showState r.1)
+    | _, _, _ => (ps, "bad-op")
+  | ["rewindack", g, m, n] =>
+    -- round 12: SetConsumedSeq holds the write lock first: the rewind, then the ack against the new window
+    match g.toNat?, m.toInt?, n.toInt? with
+    | some g, some m, some n =>
+      let s1 := (step v ps.s (.setConsumed g m)).1
+      let r := step v s1 (.ack g n)
+      ({ ps with s := r.1 }, showRes r.2 ++ " | " ++ showState r.1)
+    | _, _, _ => (ps, "bad-op")
   | ["pending", g] =>
     match g.toNat? with
     | some g =>
